@@ -746,7 +746,14 @@ def check_graph(u, sp, hard, g, stats):
     sat, _ = _check(stats, "graph", facts)
     if sat:
         bad("the facts shown in the conflict graph admit a selection that installs the root (the report is not a proof)")
-    # bounded output (C04): rendering sizes are linear-ish in the graph
+    # bounded output (C04): every node is reported at most once and every edge contributes at most one line
+    size = len(g["nodes"]) + len(g["edges"])
+    if g.get("message_lines", 0) > 3 * size + 10:
+        viol.append({"prop": "C04", "what": "the user-friendly message has %d lines for a conflict graph of %d nodes and %d edges" % (
+            g["message_lines"], len(g["nodes"]), len(g["edges"]))})
+    if g.get("graphviz_len", 0) > 400 * size + 400:
+        viol.append({"prop": "C04", "what": "the graphviz output has %d bytes for a conflict graph of %d nodes and %d edges" % (
+            g["graphviz_len"], len(g["nodes"]), len(g["edges"]))})
     return viol
 
 
